@@ -14,7 +14,7 @@ BUILTINS = {'len', 'isinstance', 'int', 'bool', 'float', 'hash', 'set', 'list', 
 SPEC_BUILTINS = {'old', 'forall', 'exists', 'implies', 'iff', 'ite', 'result', 'ident', 'cls_is', 'fresh_obj',
                  'keyobj', 'valobj', 'has', 'lower', 'slen', 'ulen', 'blen', 'bat', 'to_real', 'to_int',
                  'exact_class', 'mk_ident', 'rd_ptr', 'rd_srv', 'rd_text', 'rd_addr', 'rd_hinfo', 'rd_nsec',
-                 'some', 'nothing', 'as_', 'allocated', 'uf', 'bsum', 'bsum_unfold', 'unchanged', 'alias_of', 'list_eq', 'card', 'heap_eq', 'div', 'mod'}
+                 'some', 'nothing', 'as_', 'allocated', 'uf', 'bsum', 'bsum_unfold', 'heap_unchanged', 'unchanged', 'alias_of', 'list_eq', 'card', 'heap_eq', 'div', 'mod'}
 
 
 class ExprMixin:
